@@ -26,6 +26,12 @@ def units(tier):
               "pyrtcm.rtcmreader.RTCMReader.parse", M + ".__init__"):
         us += func_units(q, tier)
     us.append(lemma_unit("crc.step_lemmas", crc_lemmas.step_lemmas))
+    # 'for every valid frame, parsing then serialising reproduces the frame': parsing a valid frame must SUCCEED - a payload that is
+    # complete for its type's layout constructs (the decode walk raises only where the reference interpreter fails, the MSM maps
+    # raise nothing, unknown numbers give a stub)
+    from props.common import decode_path_units
+    have = {u.name for u in us}
+    us += [u for u in decode_path_units(tier) if u.name not in have]
     # the two round trips as lemmas over the contracts (client programs executed with calls by contract)
     from pyvc import clientrun
     us.append(clientrun.unit("roundtrip_serialize_parse", clientrun.lemma_roundtrip))
